@@ -298,7 +298,7 @@ func (c *Ctx) judgeSuccess(h *History, o *Obs, g *GenSpec, add func(o *Obs, clas
 }
 
 var faultKinds = []string{"err", "create-then-err", "short", "partial-mkdir", "write-enospc", "crash-before", "crash-after", "crash-torn"}
-var stages = []string{"directive", "methoddirective", "signature", "conversion", "marker", "load", "render", "syntax"}
+var stages = []string{"directive", "methoddirective", "signature", "conversion", "marker", "load", "render", "syntax", "generic"}
 
 // C17Cases builds the fault enumeration for one layout spec.
 func C17Cases(c *Ctx, rng *rand.Rand, spec *LSpec, withDisk bool, nArgv int) ([]*History, error) {
@@ -451,6 +451,17 @@ func C17Cases(c *Ctx, rng *rand.Rand, spec *LSpec, withDisk bool, nArgv int) ([]
 			h.Ops = append(h.Ops, op)
 			hs = append(hs, h)
 		}
+	}
+	// (e) success over a longer previous output whose beginning equals the new output (an
+	// earlier run emitted more into the file): every output must be written completely
+	for k := 0; k < 3; k++ {
+		h := &History{World: w1, Loc: rng.IntN(len(locNames))}
+		h.Ops = append(h.Ops, setup())
+		h.Ops = append(h.Ops, Op{Kind: "corrupt", Label: "LongerPreviousOutput", Content: "append-junk", N: k, Path: "0"})
+		op := genOp(&GenSpec{Expect: "ok", Plan: planIdentity()})
+		op.Label = "success-over-longer-previous-output"
+		h.Ops = append(h.Ops, op)
+		hs = append(hs, h)
 	}
 	// (c) argv
 	for i := 0; i < nArgv; i++ {
